@@ -36,6 +36,13 @@ o P1 240105#H2 plain todo w0
 - 240106#H3 untouched multi
   * keep me
 """,
+    # a note that was copied to a second page: same text, two notes
+    "h2.zo": """# H2 page
+
+- 240106#H3 untouched multi
+  * keep me
+- 240107#H4 only here
+""",
 }
 
 
@@ -153,6 +160,12 @@ def _expected_notes(ix, where):
     return {n["zid"]: n for n in U.notes if where is None or Q.holds_or(where, n, U, DAY)}
 
 
+def _expected_count(ix, where) -> int:
+    """Number of selected notes (two notes with the same text on two pages count twice)."""
+    U = ix.universe
+    return sum(1 for n in U.notes if where is None or Q.holds_or(where, n, U, DAY))
+
+
 def run_case(ctx, case) -> F.Outcome:
     _, name, fi, order, via = case
     H.freeze(DAY)
@@ -206,8 +219,9 @@ def run_case(ctx, case) -> F.Outcome:
         else:
             got = r["notes"]
             gz = [n["zid"] for n in got]
-            if sorted(z for z in gz if z) != sorted(want) or len(gz) != len(want) or (problems and name == "ALLOC"):
-                problems.append(("compiled-notes-are-not-the-selected-notes", {"expected": sorted(want), "observed": gz}))
+            nwant = _expected_count(base, where)
+            if sorted(set(z for z in gz if z)) != sorted(want) or len(gz) != nwant or (problems and name == "ALLOC"):
+                problems.append(("compiled-notes-are-not-the-selected-notes", {"expected": sorted(want), "expected_count": nwant, "observed": gz}))
             else:
                 for n in got:
                     w = want[n["zid"]]
